@@ -11,6 +11,7 @@ import (
 
 	"verif/harness/drv"
 	"verif/harness/gen"
+	"verif/harness/model"
 	"verif/harness/rep"
 )
 
@@ -101,7 +102,7 @@ func everyN(n int) func([]byte, *rand.Rand) []int {
 
 func runC12(c *Ctx) {
 	r := c.R
-	r.SetRule("payload sizes 0..a few hundred KiB (thorough: 3 MiB) x chunk-size sequences (1, 7, 64 KiB, 40000, 100000, mixed) x read fragmentation of the request body (whole, one byte at a time, 2/3/7/100/4096/32768-byte pieces, halves, every single split point for streams <= 400 bytes, PRNG split points, data returned together with EOF, an empty read (0 bytes, no error) before every piece) on every backend; accepted uploads must read back as exactly the payload; malformed framings (bad hex, missing ';', short signature, missing CRLF, truncation at every offset, decoded length +-1) must be rejected with the key unchanged; distinct = (backend, payload size, chunk sizes, schedule) resp. (backend, malformation, offset)")
+	r.SetRule("payload sizes 0..a few hundred KiB (thorough: 3 MiB) x chunk-size sequences (1, 7, 64 KiB, 40000, 100000, mixed) x read fragmentation of the request body (whole, one byte at a time, 2/3/7/100/4096/32768-byte pieces, halves, every single split point for streams <= 400 bytes, PRNG split points, data returned together with EOF, an empty read (0 bytes, no error) before every piece) on every backend; accepted uploads must read back as exactly the payload, also when the framing carries the parts of a multipart upload; malformed framings (bad hex, missing ';', short signature, missing CRLF, truncation at every offset, decoded length +-1) must be rejected with the key unchanged; distinct = (backend, payload size, chunk sizes, schedule) resp. (backend, malformation, offset)")
 	r.Exhaustive(true)
 	r.Set("exhaustive_scope", "every single split point of the encoded stream for payloads of 0..40 bytes in 1-, 7- and 16-byte chunks; truncation at every offset of a 2-chunk stream; on all seven backend configurations")
 	kinds := drv.AllKinds
@@ -256,6 +257,51 @@ func runC12(c *Ctx) {
 				}
 			}
 		case 3:
+			// part uploads carry the same framing: three parts sent aws-chunked under different
+			// read schedules, completed, and read back as the concatenation of the payloads
+			{
+				mkey := "chunked/multipart"
+				s.Delete(bucket, mkey)
+				if id, iresp := mpInitiate(s, bucket, mkey, nil); id == "" {
+					r.Violation(sig("C12", backendClass(j.kind), "initiate-failed", ""), iresp.String(), nil)
+				} else {
+					var list []model.CompletePart
+					var whole []byte
+					for n, spec := range []struct {
+						size   int
+						chunks []int
+						sc     int
+					}{{1000, []int{64}, 2}, {70000, []int{65536}, 9}, {33, []int{7}, 13}, {40000, []int{8192, 1, 65536, 3}, 12}} {
+						pl := gen.Body(rng, spec.size, gen.PatRandom, uint32(900+n))
+						stream := chunkEncode(pl, spec.chunks)
+						sc := scheds[spec.sc%len(scheds)]
+						q := chunkedReq(bucket, mkey, nil, len(pl))
+						q.Query = drv.Q("partNumber", fmt.Sprint(n+1), "uploadId", id)
+						q.BodyReader = &fragReader{data: stream, cuts: sc.cuts(stream, rng), eofWithData: sc.eofD, emptyReads: sc.empty}
+						q.DeclLen = i64(int64(len(stream)))
+						resp := s.Do(q)
+						r.Eval(1)
+						r.Count("chunked_part_uploads", 1)
+						r.Distinct(fmt.Sprintf("%s|chunked-part|%d|%v|%s", j.kind, spec.size, spec.chunks, sc.name))
+						if resp.Status != 200 || resp.ETag() != drv.QuotedMD5(pl) {
+							r.Violation(sig("C12", backendClass(j.kind), "valid-stream-refused", "upload-part,sched="+sc.name), fmt.Sprintf("%s: aws-chunked UploadPart of %d bytes (chunks %v, schedule %s) answered %s ETag %s, want 200 and the MD5 of the payload %s", j.kind, spec.size, spec.chunks, sc.name, resp, resp.ETag(), drv.QuotedMD5(pl)), respDesc(resp))
+							break
+						}
+						list = append(list, model.CompletePart{N: n + 1, ETag: resp.ETag()})
+						whole = append(whole, pl...)
+					}
+					if len(list) == 4 {
+						if _, cresp := mpComplete(s, bucket, mkey, id, list); cresp.Status != 200 {
+							r.Violation(sig("C12", backendClass(j.kind), "complete-failed", "upload-part"), cresp.String(), nil)
+						} else if g := s.Get(bucket, mkey); g.Status != 200 || !bytes.Equal(g.Body, whole) {
+							r.Violation(sig("C12", backendClass(j.kind), "stored-bytes-differ", "upload-part"), fmt.Sprintf("%s: object assembled from aws-chunked parts has %d bytes, the payloads have %d (first bytes %q)", j.kind, len(g.Body), len(whole), clip(string(g.Body), 40)), nil)
+						}
+					} else {
+						mpAbort(s, bucket, mkey, id)
+					}
+					s.Delete(bucket, mkey)
+				}
+			}
 			// malformed streams: must be rejected, key unchanged
 			payload := gen.Body(rng, 48, gen.PatRandom, 7)
 			good := chunkEncode(payload, []int{24})
